@@ -38,6 +38,34 @@ def rule_pitchtables(ctx):
     f = ctx.program.func("chord.pitch_class_to_semitone", R)
     s = ctx.S.get(f.qual)
     main = [r for r in s.returns if not is_lit(r.term)]
+    # a table of precomputed spellings in front of the character walk: every entry must be what the walk computes
+    # (letter + sharps - flats, reduced mod 12)
+    looked_up = []
+    for r in list(main):
+        t0 = r.term
+        tab = None
+        if t0.op == "call" and call_name(t0) == ".get" and len(t0.a[1]) == 2 and t0.a[1][0].op == "glob" and t0.a[1][1].op == "param":
+            tab = t0.a[1][0]
+        elif t0.op == "sub" and t0.a[0].op == "glob" and t0.a[1].op == "param":
+            tab = t0.a[0]
+        if tab is not None:
+            main.remove(r)
+            looked_up.append((r, tab))
+    for r, tab in looked_up:
+        from ..constfold import table as _table
+        from .. import oracles as _or
+
+        vals = _table(ctx, tab.a[0], R)
+        need(isinstance(vals, dict) and vals, R, "pitch_class_to_semitone: the look-up table %s is not a table of constants" % tab.a[0])
+        letters = dict(zip("CDEFGAB", _or.MAJOR_SCALE))
+        bad = []
+        for k_, v_ in sorted(vals.items(), key=lambda kv: str(kv[0])):
+            exp = None
+            if isinstance(k_, str) and k_[:1] in letters and set(k_[1:]) <= {"#", "b"}:
+                exp = (letters[k_[0]] + k_[1:].count("#") - k_[1:].count("b")) % 12
+            if exp is None or v_ != exp:
+                bad.append("%r -> %r (the character walk gives %s)" % (k_, v_, exp if exp is not None else "an error"))
+        yield ob(R, f, "chord.pitch_class_to_semitone:table:%s" % tab.a[0], not bad, "every precomputed entry of %s equals letter + sharps - flats mod 12" % tab.a[0] if not bad else "precomputed entries differ from the spelled-out computation: %s" % "; ".join(bad[:4]), node=r.node)
     need(len(main) == 1, R, "pitch_class_to_semitone: single computed return expected")
     lits_ok = all(isinstance(lit(r.term), (int, float)) and 0 <= lit(r.term) < 12 for r in s.returns if is_lit(r.term))
     if not lits_ok:
